@@ -3,3 +3,4 @@ import Fuota.Model.Hex
 import Fuota.Model.Layout
 import Fuota.Props.C11
 import Fuota.Model.Recon
+import Fuota.Model.Nor
